@@ -73,6 +73,9 @@ func Decode(r io.ReadSeeker) (exif2.Exif, error) {
 		if err := readUntil(&bmr, 1, func() bool { return found }); err != nil {
 			return ir.Exif, err
 		}
+		// the box reader labels what it hands over by the kind of box it came from
+		// (a CMT box, an Exif item); the type of the file is the one sniffed above
+		ir.Exif.ImageType = it
 
 	case imagetype.ImageHEIF:
 		header, err := tiff.ScanTiffHeader(rr, it)
